@@ -230,6 +230,10 @@ func init() {
 			// long-lived, regularly used connections (5 requests 100 s apart: beyond the 300 s stream timeout, never idle that long)
 			vx.Job{Scenario: "e2e.route", Params: vx.P("numconn", "2", "apps", "1", "sizes", "5", "rounds", "5", "gap", "100"), Bound: b(1, 2), Weight: 5},
 			vx.Job{Scenario: "e2e.route", Params: vx.P("numconn", "0", "apps", "2", "sizes", "5", "rounds", "5", "gap", "100"), Bound: b(0, 1), Weight: 5},
+			// a long-lived session: 17000 (thorough: 70000) streams come and go beside one that stays open
+			vx.Job{Scenario: "mux.longlived", Params: vx.P("n", fmt.Sprint(b(17000, 70000))), Weight: 6},
+			// "any relative delay between the underlying connections": one connection lagging by up to 3000 frames
+			vx.Job{Scenario: "sesh.lag", Bound: 0, Weight: 3},
 			// a burst of streams waiting for the server's accept loop (three proxy clients at once over one connection)
 			vx.Job{Scenario: "e2e.route", Params: vx.P("numconn", "1", "apps", "3", "sizes", "5"), Bound: b(1, 2), Weight: 5},
 			// a download: one request, the answer trickling back for 400 s with nothing sent the other way
@@ -244,6 +248,7 @@ func init() {
 			vx.Job{Scenario: "mux.backlogged", Params: vx.P("streams", "1032"), Bound: 0, Weight: 8},
 			// a slow consumer: 6 MiB unread on one stream, which is then given up; the other stream keeps working
 			vx.Job{Scenario: "mux.backlog", Params: vx.P("mb", "6", "close", "1"), Bound: b(0, 1), Weight: 4},
+			vx.Job{Scenario: "mux.backlog", Params: vx.P("mb", "20", "close", "0"), Bound: 0, Weight: 4},
 			vx.Job{Scenario: "mux.backlog", Params: vx.P("mb", "6", "close", "0"), Bound: 0, Weight: 4},
 		)
 		for i := range jobs {
